@@ -274,3 +274,47 @@ def expand_key(key, n):
     if kind == 'tuple' and len(key) == 2:
         return expand_key(key[1], n)
     return []
+
+
+@contextlib.contextmanager
+def fake_mpi(rank, size):
+    """a stand-in for mpi4py under which a Process believes it is rank `rank` of `size` (single thread: barriers are
+    no-ops); h5py.File.driver reports the parallel driver, without which Process ignores MPI"""
+    import sys
+    import types
+
+    class Comm(object):
+        def Get_size(self):
+            return size
+
+        def Get_rank(self):
+            return rank
+
+        def barrier(self):
+            pass
+        Barrier = barrier
+
+        def allgather(self, item):
+            return [item] * size
+
+        def bcast(self, item, root=0):
+            return item
+    fake = types.ModuleType('mpi4py.MPI')
+    fake.COMM_WORLD = Comm()
+    fake.Get_processor_name = lambda: 'node0'
+    pkg = types.ModuleType('mpi4py')
+    pkg.MPI = fake
+    saved = {k: sys.modules.get(k) for k in ('mpi4py', 'mpi4py.MPI')}
+    saved_driver = h5py.File.driver
+    sys.modules['mpi4py'], sys.modules['mpi4py.MPI'] = pkg, fake
+    h5py.File.driver = property(lambda self: 'mpio')
+    try:
+        yield
+    finally:
+        h5py.File.driver = saved_driver
+        for k, v in saved.items():
+            if v is None:
+                sys.modules.pop(k, None)
+            else:
+                sys.modules[k] = v
+
